@@ -813,6 +813,51 @@ pub struct BodyOpt {
 }
 impl_battery!(BodyOpt, (i32s(), opt(i32s())).prop_map(|(a, o)| BodyOpt { a, o }));
 
+pub use crate::extras::*;
+use std::sync::Arc;
+use std::time::Duration;
+use swimos_model::{Blob, Text, Timestamp};
+use swimos_utilities::future::RetryStrategy;
+use swimos_utilities::routing::RouteUri;
+
+pub type BodyBlobVec = BodyOf<Vec<u8>>;
+pub type BodyBlob = BodyOf<Blob>;
+pub type BareBlobVec = BareBodyOf<Vec<u8>>;
+pub type BareBoxed = BareBodyOf<Box<[u8]>>;
+pub type BodyBigInt = BodyOf<BigInt>;
+pub type BareBigUint = BareBodyOf<BigUint>;
+pub type BodyF64 = BodyOf<f64>;
+pub type BareBool = BareBodyOf<bool>;
+pub type BodyI64 = BodyOf<i64>;
+pub type BareU64 = BareBodyOf<u64>;
+pub type BodyTs = BodyOf<Timestamp>;
+pub type BodyDur = BodyOf<Duration>;
+pub type BodyUri = BodyOf<RouteUri>;
+pub type BareText = BareBodyOf<Text>;
+pub type BodyUnit = BodyOf<()>;
+pub type BodyArcRec = BodyOf<Arc<TwoFields>>;
+pub type BareRetry = BareBodyOf<RetryStrategy>;
+pub type PosBlobVec = Positions<Vec<u8>>;
+pub type PosBlob = Positions<Blob>;
+pub type PosTs = Positions<Timestamp>;
+pub type PosDur = Positions<Duration>;
+pub type PosUri = Positions<RouteUri>;
+pub type PosText = Positions<Text>;
+pub type PosRetry = Positions<RetryStrategy>;
+pub type PosBig = Positions<BigInt>;
+pub type TopBlobVec = Top<Vec<u8>>;
+pub type TopBlob = Top<Blob>;
+pub type TopBoxed = Top<Box<[u8]>>;
+pub type TopTs = Top<Timestamp>;
+pub type TopDur = Top<Duration>;
+pub type TopUri = Top<RouteUri>;
+pub type TopText = Top<Text>;
+pub type TopRetry = Top<RetryStrategy>;
+pub type TopArcRec = Top<Arc<TwoFields>>;
+pub type TopBig = Top<BigInt>;
+pub type MapUpdArcBlob = MapUpdateArc<Text, Vec<u8>>;
+pub type MapUpdArcRec = MapUpdateArc<RouteUri, TwoFields>;
+
 // built-in implementations at top level (wrapped so that they have a name and serde)
 macro_rules! builtin {
     ($name:ident, $ty:ty, $strat:expr) => {
@@ -937,6 +982,47 @@ battery! {
     HeaderExtras: HeaderExtras => ["header", "header_body", "collection", "newtype"],
     BodyMap: BodyMap => ["header", "body", "collection"],
     BodyOpt: BodyOpt => ["body", "option"],
+    BodyBlobVec: BodyBlobVec => ["generic", "header", "body", "blob"],
+    BodyBlob: BodyBlob => ["generic", "header", "body", "blob"],
+    BareBlobVec: BareBlobVec => ["generic", "tag", "body", "blob"],
+    BareBoxed: BareBoxed => ["generic", "tag", "body", "blob"],
+    BodyBigInt: BodyBigInt => ["generic", "header", "body"],
+    BareBigUint: BareBigUint => ["generic", "tag", "body"],
+    BodyF64: BodyF64 => ["generic", "header", "body"],
+    BareBool: BareBool => ["generic", "tag", "body"],
+    BodyI64: BodyI64 => ["generic", "header", "body"],
+    BareU64: BareU64 => ["generic", "tag", "body"],
+    BodyTs: BodyTs => ["generic", "header", "body", "builtin"],
+    BodyDur: BodyDur => ["generic", "header", "body", "builtin"],
+    BodyUri: BodyUri => ["generic", "header", "body", "builtin"],
+    BareText: BareText => ["generic", "tag", "body", "builtin"],
+    BodyUnit: BodyUnit => ["generic", "header", "body"],
+    BodyArcRec: BodyArcRec => ["generic", "header", "body", "nested", "builtin"],
+    BareRetry: BareRetry => ["generic", "tag", "body", "builtin"],
+    PosBlobVec: PosBlobVec => ["generic", "attr", "header", "header_body", "collection", "blob"],
+    PosBlob: PosBlob => ["generic", "attr", "header", "header_body", "collection", "blob"],
+    PosTs: PosTs => ["generic", "attr", "header", "header_body", "collection", "builtin"],
+    PosDur: PosDur => ["generic", "attr", "header", "header_body", "collection", "builtin"],
+    PosUri: PosUri => ["generic", "attr", "header", "header_body", "collection", "builtin"],
+    PosText: PosText => ["generic", "attr", "header", "header_body", "collection", "builtin"],
+    PosRetry: PosRetry => ["generic", "attr", "header", "header_body", "collection", "builtin"],
+    PosBig: PosBig => ["generic", "attr", "header", "header_body", "collection"],
+    TopBlobVec: TopBlobVec => ["newtype", "blob"],
+    TopBlob: TopBlob => ["newtype", "blob"],
+    TopBoxed: TopBoxed => ["newtype", "blob"],
+    TopTs: TopTs => ["newtype", "builtin"],
+    TopDur: TopDur => ["newtype", "builtin"],
+    TopUri: TopUri => ["newtype", "builtin"],
+    TopText: TopText => ["newtype", "builtin"],
+    TopRetry: TopRetry => ["newtype", "builtin"],
+    TopArcRec: TopArcRec => ["newtype", "builtin", "nested"],
+    TopBig: TopBig => ["newtype"],
+    MapUpdArcBlob: MapUpdArcBlob => ["enum", "generic", "tag", "header", "body", "rename", "blob", "builtin"],
+    MapUpdArcRec: MapUpdArcRec => ["enum", "generic", "tag", "header", "body", "rename", "nested", "builtin"],
+    Builtins: Builtins => ["builtin", "attr", "header"],
+    ManyAttrs: ManyAttrs => ["attr", "sizes"],
+    ManyFields: ManyFields => ["header", "sizes"],
+    Sizes: Sizes => ["attr", "header", "collection", "nested", "sizes"],
     BVecI32: BVecI32 => ["builtin"],
     BMap: BMap => ["builtin"],
     BOptStr: BOptStr => ["builtin"],
